@@ -53,6 +53,14 @@ type testCase struct {
 	accts []*account
 	txs   []tx
 	extra []common.Address // further addresses to observe (non-existent targets, beneficiaries)
+	deep  bool             // self-recursive case aimed at the call-depth limit: unrolled 1030 levels for the model
+}
+
+func (c *testCase) unrollLimit() int {
+	if c.deep {
+		return 1030
+	}
+	return 10
 }
 
 func (c *testCase) acct(a common.Address) *account {
@@ -113,6 +121,9 @@ func bodyText(b []step) string {
 
 func (c *testCase) lines() []string {
 	var out []string
+	if c.deep {
+		out = append(out, "DEEP")
+	}
 	for _, a := range c.accts {
 		l := fmt.Sprintf("ACCT %s %d %d", ah(a.addr), a.nonce, a.bal)
 		for _, k := range sortedKeys(a.storage) {
@@ -292,6 +303,8 @@ func parseCase(lines []string) (*testCase, error) {
 		}
 		p := &tokens{t: f[1:]}
 		switch f[0] {
+		case "DEEP":
+			c.deep = true
 		case "ACCT":
 			a := &account{storage: map[uint64]uint64{}}
 			var err error
@@ -581,8 +594,8 @@ func calleeLean(c *testCase, addr common.Address, depth int, bad *bool) []string
 	if t == nil || t.body == nil {
 		return []string{"S", "0"}
 	}
-	if depth > 10 {
-		*bad = true // cyclic or too deep: cannot be unrolled
+	if depth > c.unrollLimit() {
+		*bad = !c.deep // cyclic or too deep: cannot be unrolled (a deep case never gets past the depth limit)
 		return []string{"S", "0"}
 	}
 	_, l := assemble(c, t.body, depth, bad)
